@@ -267,6 +267,35 @@ func work(a lib.Args) {
 		n++
 	}
 
+	// the audience dimension: exact scope, valid signature and window, aud a look-alike of this API's audience
+	genAudience := func(r *lib.Rng, rt string, pick int) {
+		e := mocks[r.Bool()]
+		now := int64(1600000000 + r.Intn(200000000))
+		name := "c09-" + strconv.Itoa(n)
+		adm := acc.ScopeBearer(e.Cfg.Host, now, []string{"relay:admin"})
+		bkD, bkA := "den-"+name, "alw-"+name
+		scope := "relay:admin"
+		if rt == "status" {
+			scope = "relay:stats"
+		}
+		avs := acc.AudienceVariants(e.Cfg.Host)
+		av := avs[pick%len(avs)]
+		auth := acc.WithAud(acc.ScopeBearer(e.Cfg.Host, now, []string{scope}), av)
+		target := bkA
+		if rt == "allow" {
+			target = bkD
+		}
+		x := mkReq(rt, auth, target, now+300)
+		ld := mkReq("listdeny", adm, "", 0)
+		la := mkReq("listallow", adm, "", 0)
+		d0 := mkReq("deny", adm, bkD, now+1000)
+		a0 := mkReq("allow", adm, bkA, now+1000)
+		ops := []acc.Op{{K: "req", Req: &d0}, {K: "req", Req: &a0}, {K: "req", Req: &ld}, {K: "req", Req: &la}, {K: "req", Req: &x}, {K: "req", Req: &ld}, {K: "req", Req: &la}}
+		cases = append(cases, acc.Case{Name: name, T0: now, Ops: ops, Cfg: e.Cfg, Mode: "mock"})
+		metas = append(metas, meta{kind: "lists", x: 4, class: "exact-scope", before: []int{2, 3}, after: []int{5, 6}})
+		n++
+	}
+
 	genBystander := func(r *lib.Rng) {
 		e := real
 		now := time.Now().Unix()
@@ -335,6 +364,11 @@ func work(a lib.Args) {
 	} else {
 		for i := 0; i < a.Pick(260, 5000); i++ {
 			genLists(rng.Fork())
+		}
+		for _, rt := range endpoints {
+			for k := range acc.AudienceVariants("http://127.0.0.1:1") {
+				genAudience(rng.Fork(), rt, k)
+			}
 		}
 		for i := 0; i < a.Pick(40, 400); i++ {
 			genBystander(rng.Fork())
